@@ -20,6 +20,9 @@ class C18(RecorderProp):
         case = rg.gen_history(rng, self.OPTS)
         for cspec in case['classes'].values():
             cspec['hasExtractor'] = rng.random() < 0.7
+        for cspec in case['classes'].values():
+            if cspec.get('base') is not None:       # the decorated operation (and its extractor) is the base class' one
+                cspec['hasExtractor'] = case['classes'][cspec['base']]['hasExtractor']
         for run in case['runs']:
             if case['classes'][run['cls']]['hasExtractor'] and 'extractor' not in run:
                 run['extractor'] = rng.choice([{'ok': [['user', {'s': 'u'}], ['n', {'i': '3'}]]}, {'ok': []}, 'raise', 'junk5',
